@@ -99,6 +99,14 @@ class Schemas:
         self.dependencies.setdefault(ref_path, set())
         self.dependencies[ref_path].update(roots)
 
+    def module_name_taken(self, class_info: Class) -> bool:
+        """Whether a class with a different name is already generated into the module `class_info` would be written to"""
+        for name, existing in self.classes_by_name.items():
+            other = getattr(existing, "class_info", None)
+            if name != class_info.name and other is not None and other.module_name == class_info.module_name:
+                return True
+        return False
+
 
 def update_schemas_with_data(
     *, ref_path: ReferencePath, data: oai.Schema, schemas: Schemas, config: Config
